@@ -536,6 +536,7 @@ func init() {
 func c13Q5(c *Ctx) {
 	r := c.R
 	r.Clause("C13-Q5", "the count a page is measured against is cut at the store's page limit")
+	r.Clause("C13-Q6", "the store scans from the client's cursor unmodified; the far end of a forward range is the successor of the prefix")
 	limit := ""
 	if u := c.unit("C13-Q5", "rockredis.checkScanCount"); u != nil {
 		for _, s := range u.Match(an.LocalStore("count")) {
@@ -579,6 +580,18 @@ func c13Q5(c *Ctx) {
 			}
 			n++
 			r.Check("C13-Q5", fn+": the count compared with the page is the one parseScanArgs returned", "", okH, fmt.Sprint(tv))
+			// Q6: the store scans from the client's cursor, whatever its bytes: the cursor is the last element of the
+			// previous page, so any name ("0" included) can be one
+			okC := len(tv) == 4 && tv[0] != "" && len(hu.Match(an.LocalStore(tv[0]))) == 1
+			nScan := 0
+			for _, sc := range hu.Match(an.Call("rockredis.(*RockDB).Scan", "rockredis.(*RockDB).HScan", "rockredis.(*RockDB).SScan", "rockredis.(*RockDB).ZScan")) {
+				nScan++
+				if len(tv) == 4 && hu.ArgTerm(sc, 1) != tv[0] {
+					okC = false
+				}
+			}
+			r.Check("C13-Q6", fn+": the store scans from the cursor the client sent, unmodified", "", okC && nScan >= 1,
+				"a cursor is the name of the last element of the previous page: rewriting particular values (\"0\") restarts or cuts the iteration when an element has that name")
 		}
 		r.Min("C13-Q5", n, 5, "scan handlers")
 	}
@@ -587,4 +600,40 @@ func c13Q5(c *Ctx) {
 func init() {
 	old := registry["C13"].Run
 	registry["C13"].Run = func(c *Ctx) { old(c); c13Q5(c) }
+}
+
+
+// Q6 (far end): a forward scan ends at the successor of the collection's (or type's) key prefix: the prefix with its
+// last byte incremented, which is greater than every key that extends the prefix. Appending a byte instead (0xff) leaves
+// out the elements whose name begins with that byte or a greater string.
+func c13Q6(c *Ctx) {
+	r := c.R
+	for _, fn := range []string{"rockredis.encodeScanMaxKey", "rockredis.encodeSpecificDataScanMaxKey"} {
+		u := c.unit("C13-Q6", fn)
+		if u == nil {
+			continue
+		}
+		inc := an.StoreTerm("*").Where("last byte incremented", func(u *an.Unit, s *an.Site) bool {
+			if s.Kind != flow.SStore || s.Tok.String() != "++" {
+				return false
+			}
+			ix, ok := ast.Unparen(s.LHS).(*ast.IndexExpr)
+			return ok && u.C.Term(ix.Index) == "(len("+u.C.Term(ix.X)+") - 1)"
+		})
+		// every successful return that does not simply encode a given cursor passes the increment
+		for _, s := range u.Sites {
+			if s.Kind != flow.SReturn || !s.Block.Reachable() || !an.LastResultNil(u, s) || len(s.Ret.Results) != 2 {
+				continue
+			}
+			if _, isCall := ast.Unparen(s.Ret.Results[0]).(*ast.CallExpr); isCall && strings.Contains(u.C.Term(s.Ret.Results[0]), "encode") {
+				continue // `return encodeScanKey(..)`: a cursor was given, the key itself is the bound
+			}
+			r.OrderSites("C13-Q6", u, []*an.Site{s}, func(*flow.Site) string { return "successful return of a computed far end" }, []an.M{inc}, an.OrderOpts{})
+		}
+	}
+}
+
+func init() {
+	old := registry["C13"].Run
+	registry["C13"].Run = func(c *Ctx) { old(c); c13Q6(c) }
 }
